@@ -9,7 +9,7 @@ RELATED = {
  "C08": ["C08"], "C09": ["C09", "C12"], "C10": ["C10"], "C11": ["C11"], "C12": ["C12", "C09"], "C13": ["C13"],
  "C14": ["C14"], "C15": ["C15"], "C16": ["C16"], "C17": ["C17"], "C18": ["C18", "C04"],
 }
-EXTRA = {"C03-m2": ["C14", "C03"]}
+EXTRA = {"C03-m2": ["C14", "C03"], "C02-m5": ["C14", "C02"]}
 NEEDS = json.load(open("/verif/seeded/needs.json")) if os.path.exists("/verif/seeded/needs.json") else {}
 
 def sh(cmd, **kw):
